@@ -15,6 +15,7 @@ CFG = dict(
         "an io.Reader returns at most len(p) <= 16384 bytes",
         "inv: 0 <= rpos <= len(buf) <= cap(buf), a nil buffer has no backing array, the backing array holds bytes "
         "(holds for Chunk{}, Chunk{Limit: n} and NewChunk(b); preserved by every operation: C11_inv_preserved)",
+        "UnmarshalStream does not look at the Limit: the Limit statements exclude it (is_unmarshal / no_unmarshal hypotheses)",
         "limit_invariant starts from a chunk within its Limit (lim_ok: true for a fresh Chunk{Limit: n}; NewChunk(b) with a later, smaller "
         "Limit is outside it until drained)",
         "ints are mathematical integers: no int overflow below 2^62 bytes of buffer (max-m-n and MaxSlice = 2^42 checks are modelled; "
@@ -22,7 +23,7 @@ CFG = dict(
     ],
     level_text="Fourteen statements, closed under the global context, about the SAME Gallina functions (Model.Chunk.step/run) the correspondence run "
                "evaluates: for ALL states satisfying the representation invariant, ALL operations (Write, WriteUint8..64 and wrappers, WriteBytes/"
-               "WriteString, Write*Pos, Read, Uint8..64 and wrappers, Bytes/StringVal, Seek, Truncate, Grow, Reset, Clear, WriteTo, ReadFrom) with "
+               "WriteString, Write*Pos, Read, Uint8..64 and wrappers, Bytes/StringVal, Seek, Truncate, Grow, Reset, Clear, WriteTo, ReadFrom, UnmarshalStream, MarshalStream) with "
                "well-formed arguments and ALL allocator capacities >= the request: every step returns (no panic, loop fuel never exhausted), "
                "preserves the invariant and the Limit bound, and is a step of a plain byte queue (qstep: reads return exactly the front of the "
                "queue and remove it, typed reads are the codec's flat reader rd_uN/rd_bytes on the queue, writes append exactly the accepted "
@@ -35,7 +36,7 @@ CFG = dict(
                "Go-side byte-queue oracle.",
     level_note="Proof is about the hand-written model; the tie to the code is differential (strength = generator: weighted op grammar over 11 limits, "
                "boundary grid of write sizes incl. 16383/16384/16385, regression corpus). Not modelled: ReadDeadline (same loop as ReadFrom plus "
-               "deadlines), MarshalStream/UnmarshalStream, String, the heap variant chunk_heap.go, concurrent use (Chunk is not goroutine-safe). "
+               "deadlines), UnmarshalStream from another Chunk (aliasing), String, the heap variant chunk_heap.go, concurrent use (Chunk is not goroutine-safe). "
                "Recorded behaviours that are conservative, not violations: typed writes never fill the last byte (Available is strict); the Limit "
                "bounds Size (read + unread), so a fully read but not yet reset chunk refuses typed writes; a limited Write that would need a "
                "reallocation refuses everything; Write of an empty slice on a full "
